@@ -1,12 +1,15 @@
 //! Conformance drivers for the mini-protocol state machines (C23, C24).
 mod agents;
 mod apply;
+mod session;
 
 fn main() {
     let args = pv_core::Args::parse();
     match args.cmd.as_str() {
         "apply-replay" => apply::replay(&args),
         "agents-trace" => agents::trace(&args),
+        "session-replay" => session::replay(&args),
+        "session-trace" => session::trace(&args),
         other => pv_core::die(&format!("unknown sub-command {other}")),
     }
 }
